@@ -4,7 +4,10 @@ See /verif/DESIGN.md section 2.
 """
 import sys
 
-REPO = '/repo'
+import os
+
+# /repo unless overridden (development only: checking a scratch worktree)
+REPO = os.environ.get('VERIF_REPO', '/repo').rstrip('/')
 if REPO not in sys.path:
     sys.path.insert(0, REPO)
 
